@@ -52,6 +52,15 @@ template<class Graph> struct Comp {
         bool asame = fa.cycle_space_dimension() == fi.cycle_space_dimension() && fa.weak_connected_components() == fi.weak_connected_components();
         for (size_t i = 0; i < m && asame; i++) asame = fa(b.edge_of[i]) == fi(b.edge_of[i]) && b.idx(fa(i)) == b.idx(fi(i)) && fa.is_on_forest(b.edge_of[i]) == fi.is_on_forest(b.edge_of[i]);
         j.b("assign_same", asame);
+        // the same edge reached from its other endpoint (out_edges of the target): lookups must not depend on the orientation
+        bool osame = true;
+        for (size_t i = 0; i < m && osame; i++) {
+            auto pr = boost::edge((Vertex) in.edges[i].v, (Vertex) in.edges[i].u, b.g);
+            if (!pr.second) continue;
+            if (b.idx(pr.first) != (long) i + 1) continue;            // (never for a simple graph: another parallel edge was found)
+            osame = fi(pr.first) == fi(b.edge_of[i]) && fi.is_on_forest(pr.first) == fi.is_on_forest(b.edge_of[i]);
+        }
+        j.b("orient_same", osame);
         emit(j.str());
     }
 
